@@ -1261,7 +1261,8 @@ impl WriteTransaction {
     }
 
     fn allocate_savepoint(&self) -> Result<(SavepointId, TransactionId)> {
-        let transaction_id = self
+        // The write lock is held, so no commit can land here: only the id is needed
+        let (transaction_id, _) = self
             .transaction_tracker
             .register_read_transaction(&self.mem)?;
         let id = self.transaction_tracker.allocate_savepoint(transaction_id);
@@ -2641,11 +2642,13 @@ pub struct ReadTransaction {
 }
 
 impl ReadTransaction {
+    // `root_page` is the data root of the commit that `guard` pins (see
+    // `TransactionTracker::register_read_transaction`)
     pub(crate) fn new(
         mem: Arc<TransactionalMemory>,
         guard: TransactionGuard,
+        root_page: Option<BtreeHeader>,
     ) -> Result<Self, TransactionError> {
-        let root_page = mem.get_data_root();
         let guard = Arc::new(guard);
         let resolver = PageResolver::new(mem.clone());
         Ok(Self {
